@@ -200,7 +200,7 @@ Proof.
   apply all_some_spec in Hi as [L I]. rewrite map_length in L. split; [|exact L].
   apply Forall_forall. intros t Ht. apply I in Ht. apply in_map_iff in Ht as [i [Hl _]].
   apply lookup_ty_In in Hl.
-  assert (R : RC S (unify_args (m_params g) (map (operand_type f) args) [])).
+  assert (R : RC S (unify_args (paired_params g) (map (operand_type f) args) [])).
   { apply unify_args_closed; [|intros ? ? []].
     apply Forall_forall. intros u Hu. apply in_map_iff in Hu as [a [<- Hin]].
     apply operand_type_closed; [exact Hf|]. rewrite forallb_forall in Ha. specialize (Ha a Hin).
